@@ -27,6 +27,10 @@ import (
 //	                                       user middleware replace the message context during the call (ctxrepl.go)
 //	[.., +nCtxEnum)       ctx-replace/chain/k[+retry]  the 1928 enumerated chains again, with context replacement and 0..2 user middlewares
 //	[.., +nCtxRandom)     ctx-replace/random  chains with repetition (nested Timeouts), up to two Retry layers, 0..2 user middlewares
+//	[.., +nValSingle)     values/<kind>   one middleware alone, handler results with unusual Go values (values.go)
+//	[.., +nValEnum)       values/chain/k[+retry]  the 1928 enumerated chains again with such results
+//	[.., +nConcSingle)    concurrent/<kind>  one wrapped handler, 2..6 calls in flight with different messages (concurrent.go)
+//	[.., +nConcChain)     concurrent/chain[+retry]  the same for chains of 2..3 distinct middlewares, 35% with a Retry layer
 const (
 	chainsPerCase  = 8
 	singleKinds    = 8
@@ -42,6 +46,10 @@ type layout struct {
 	ctxPerKind                       int // cases per kind in ctx-replace/<kind>
 	ctxScriptsSingle                 int // scripts per shape in ctx-replace/<kind>
 	ctxScriptsChain                  int // scripts (each with its own user-middleware placement) per enumerated chain
+
+	nValSingle, nValEnum, nConcSingle, nConcChain int
+	valPerKind, valScriptsChain                   int
+	concPerKind, concRounds                       int
 }
 
 func layoutFor(tier string) layout {
@@ -59,14 +67,24 @@ func layoutFor(tier string) layout {
 		ctxPerKind:       vlib.TierN(tier, 3, 30),
 		ctxScriptsSingle: vlib.TierN(tier, 10, 30),
 		ctxScriptsChain:  vlib.TierN(tier, 6, 120),
+
+		nValEnum:        len(enumChains) / chainsPerCase,
+		valPerKind:      vlib.TierN(tier, 3, 30),
+		valScriptsChain: vlib.TierN(tier, 5, 80),
+		concPerKind:     vlib.TierN(tier, 4, 60),
+		concRounds:      vlib.TierN(tier, 6, 10),
+		nConcChain:      vlib.TierN(tier, 96, 6000),
 	}
 	l.nSingle = singleKinds * l.singlePerKind
 	l.nCtxSingle = singleKinds * l.ctxPerKind
+	l.nValSingle = singleKinds * l.valPerKind
+	l.nConcSingle = singleKinds * l.concPerKind
 	return l
 }
 
 func (l layout) total() int {
-	return l.nSingle + l.nEnum + l.nRandom + l.nDelay + l.nThrottle + l.nArrivals + l.nCtxSingle + l.nCtxEnum + l.nCtxRandom
+	return l.nSingle + l.nEnum + l.nRandom + l.nDelay + l.nThrottle + l.nArrivals + l.nCtxSingle + l.nCtxEnum + l.nCtxRandom +
+		l.nValSingle + l.nValEnum + l.nConcSingle + l.nConcChain
 }
 
 func init() {
@@ -99,6 +117,21 @@ func init() {
 			"no Timeout deadline left on the message, values of the caller's and of the installed contexts still visible during later calls and afterwards (ctx-transparency), a Timeout deadline visible in a handler call iff a Timeout layer lies between the last unrelated replacement and the handler. " +
 			"When inner code leaves an UNRELATED context of its own on the message under a Timeout, the statement does not say whether Timeout may put the caller's context back; from then on only 'not cancelled', 'no Timeout deadline left' and the attempt count are judged (counter ctx_unrelated_left_under_timeout). " +
 			"A ctx-replace case is non-trivial when a documented effect was exercised and at least one replacement was made. " +
+			"values classes (values/<kind>: each simple middleware alone, 60 scripts per case; values/chain/k[+retry]: the 1928 enumerated chains again, 5 (quick) / 80 (thorough) scripts each): the same chain oracle with handler results made of unusual but legal Go values: " +
+			"errors whose dynamic type is not comparable, returned by value (a slice type, a map type, a struct with a slice field, a struct whose interface field holds a slice; one value of each per scenario, reused across the attempts of a Retry), " +
+			"pointers to and pkg/errors / %w wrappers around them, errors.Join of two errors, of one error and of a non-comparable one, a nil-valued typed error with a nil-safe Error method; " +
+			"IgnoreErrors lists that contain the slice / map / struct / typed-nil errors (60%); outputs that are nil, empty but non-nil, or contain the consumed message itself at any position (30%); " +
+			"panics with a map, a struct with a slice field, a slice of errors, an array of slices, a non-comparable error value, an errors.Join / pkg-errors / typed-nil error value, nil. " +
+			"A non-comparable error is 'unchanged' when the returned value has the same type and is deeply equal (contents are unique per value); a panicking middleware constructor is reported as middleware-construct. " +
+			"When CorrelationID sees the consumed message, lacking an id, among the outputs, an empty correlation_id key on it is accepted (copying its own empty id onto it). A values case is non-trivial when an effect was exercised and an unusual value was generated. " +
+			"concurrent classes (concurrent/<kind>: each simple middleware alone; concurrent/chain[+retry]: 2..3 distinct simple middlewares, 35% with one Retry layer at a random position): the chain is built ONCE per case and the one wrapped handler is called " +
+			"in 6 (quick) / 10 (thorough) rounds by 2..6 goroutines at the same time, each with its own fresh message and its own handler script (40% of the cases with the values generator); every message is judged by the chain oracle against its own model " +
+			"(its own outputs / error / panic value, correlation id from its own message, delay metadata and ack on its own message, its own context values and deadline during the call and its own live context afterwards). " +
+			"Schedule of a round: all goroutines are released by a start barrier; in chains without Retry every call parks inside the handler with its result ready until all calls of the round are inside their handlers, then all are released and yield 0..3 times before returning; " +
+			"every CircuitBreaker layer's Settings.IsSuccessful callback (same verdict as the default; gobreaker calls it after the handler returned and before the result is handed back) parks until all calls that reach it have reached it, i.e. all handlers have returned and no middleware call has. " +
+			"All barrier waits are conditional (filled, or process quiescent, or watchdog: released and counted in concurrent_barrier_released_unfilled); verdicts never depend on whether a barrier filled. " +
+			"Data races with a watermill frame are violations (clause data-race): the middlewares are called through function variables so that their closures keep their own names in race reports. " +
+			"A concurrent case is non-trivial when an effect was exercised and (chains without Retry) at least one round had all its handlers in flight at once. " +
 			"A case is non-trivial when at least one documented effect was exercised (id copied, panic recovered, error ignored, ack-at-start seen, deadline seen, delay applied, retry made, rate wait seen); " +
 			"distinct = distinct (chains, parameters, script shapes, observed results) hashes.",
 		Assumptions: []string{
@@ -109,9 +142,14 @@ func init() {
 			"Throttle: only lower bounds on start times are judged (no upper bounds on durations); the reference for 'configured rate' is the time.Ticker the middleware documents itself with (one start per duration/count, at most one tick saved while idle); a clock-read-to-channel-send gap inside one runtime timer firing of more than one period, twice within one window, is assumed not to happen",
 			"ctx-replace: every context the handler / UserMW installs stays live while the chain runs (own cancel funcs are invoked only after the verdict; own deadlines are 3 h away), so a done message context after the call is the middleware's doing; " +
 				"handlers that cancel their own context and leave it on the message are not generated; handlers in these classes never wait for the Timeout deadline (all Timeouts >= 1 min)",
-			"outputs are compared by pointer identity and order, errors by identity (==); nil vs. empty output slices are not distinguished",
+			"outputs are compared by pointer identity and order, errors by identity (==; values of non-comparable dynamic types by type and deep equality); nil vs. empty output slices are not distinguished",
+			"values classes: matching against an IgnoreErrors list is by the text of the pkg/errors Cause for the unusual error types too (their texts are fixed per type); %w / errors.Join wrappers are only generated around errors that are never listed, except a Join of exactly one listed error (it has the listed text and is the listed error for errors.Is, so both readings agree); errors whose Error method panics are not generated",
+			"concurrent classes: the calls in flight never share a message; the circuit breaker never trips (ReadyToTrip=never); all Timeouts >= 1 min and no handler waits for a deadline; no UserMW layers / context replacement",
 		},
-		Run: run,
+		// concurrent classes: two calls in flight of one wrapped handler share nothing but the middleware itself; a race
+		// report with a middleware frame means the outputs / error of one call can end up in the other
+		RaceIsViolation: true,
+		Run:             run,
 	})
 }
 
@@ -149,5 +187,21 @@ func run(e *vlib.Env) vlib.Result {
 	if i < l.nCtxEnum {
 		return runCtxEnum(e, i, l.ctxScriptsChain)
 	}
-	return runCtxRandom(e)
+	i -= l.nCtxEnum
+	if i < l.nCtxRandom {
+		return runCtxRandom(e)
+	}
+	i -= l.nCtxRandom
+	if i < l.nValSingle {
+		return runValSingle(e, kind(i/l.valPerKind))
+	}
+	i -= l.nValSingle
+	if i < l.nValEnum {
+		return runValEnum(e, i, l.valScriptsChain)
+	}
+	i -= l.nValEnum
+	if i < l.nConcSingle {
+		return runConcSingle(e, kind(i/l.concPerKind), l.concRounds)
+	}
+	return runConcChain(e, l.concRounds)
 }
